@@ -202,7 +202,15 @@ static void spec_line(const char *p, struct spec *s)
     }
   } else {
     /* key followed by something that is no delimiter */
-    if (i == n) { if (!delim_has_blank() || CTX_LAST_ENTRY) return; s->kind = L_ENTRY; return; }
+    if (i == n) {
+      if (CTX_LAST_ENTRY) return;       /* directly after an entry: a continuation by design */
+      /* a key and blanks with nothing behind them: without blank delimiters no delimiter is there (C13) */
+      if (delim_has_blank()) { s->kind = L_ENTRY; return; }
+      /* a bare key, or a key and ONE blank, with nothing behind it is taken as a key without value
+       * by the code (the blank is overwritten by the key's terminator): left unspecified */
+      if (b > 1) s->kind = L_BAD_NODELIM;
+      return;
+    }
     if (!delim_has_blank() && b > 0 && key_byte(p[i])) s->kind = L_BAD_NODELIM;
     return;
   }
